@@ -29,6 +29,7 @@ import re
 import sys
 import types
 from collections import deque
+from copy import copy
 
 import xdis
 from xdis.bytecode import Bytecode
@@ -243,20 +244,20 @@ def disco_loop_asm_format(opc, version_tuple, co, real_out, fn_name_map, all_fns
     use more stack space at runtime.
     """
 
-    co = codeType2Portable(co)
+    # Work on a copy: renaming and re-linking constants below must not rewrite
+    # the caller's (portable) code object. A native code object is converted,
+    # which copies it anyway.
+    co = copy(codeType2Portable(co))
     co_name = co.co_name
     mapped_name = fn_name_map.get(co_name, co_name)
 
     new_consts = []
     for c in co.co_consts:
         if iscode(c):
-            if isinstance(c, types.CodeType):
-                c_compat = codeType2Portable(c)
-            else:
-                c_compat = c
-
-            disco_loop_asm_format(
-                opc, version_tuple, c_compat, real_out, fn_name_map, all_fns
+            # The renamed copy made by the recursive call is what this code
+            # object's listing refers to.
+            c_compat = disco_loop_asm_format(
+                opc, version_tuple, c, real_out, fn_name_map, all_fns
             )
 
             # The recursive call above has already given c_compat its unique
@@ -302,6 +303,7 @@ def disco_loop_asm_format(opc, version_tuple, co, real_out, fn_name_map, all_fns
 
     bytecode = Bytecode(co, opc, dup_lines=True)
     real_out.write(bytecode.dis(asm_format="asm") + "\n")
+    return co
 
 
 def disassemble_file(
